@@ -51,14 +51,8 @@ theorem serialization_string_psl (lines : List Str) (sa : Bool) (u : Str) (hbar 
 
 /-- the same at component level: the stems of every 5-tuple without `|` are well formed -/
 theorem stems_wellformed_psl (lines : List Str) (sa : Bool) (p : Parts) (hb : noBar p = true) :
-    StemsOK (lruStems (pslSplit lines) sa p) := by
-  apply stems_wellformed_of_split (pslSplit lines) sa p hb
-  intro _ _
-  apply split_nobar_psl lines
-  intro hm
-  simp only [noBar, Bool.and_eq_true] at hb
-  have := noneOf_iff.mp hb.1.1.1.2 _ hm
-  simp at this
+    StemsOK (lruStems (pslSplit lines) sa p) :=
+  stems_ok_psl lines sa p hb
 
 /-- **the exact host condition of the suffix-aware round trip**: a bracketed literal (never
 suffix-processed), or a host that neither starts nor ends with a dot -/
